@@ -227,6 +227,18 @@ func (d *Disk) ReplaceRaw(p string, data []byte) {
 	d.Journal = append(d.Journal, Op{len(d.Journal), "external-replace", clean(p), len(data), simrt.Elapsed()})
 }
 
+// ReplaceRawMtime replaces a file's content and gives it the stated modification time (a
+// backup restored with its old time stamp, a file prepared earlier and moved into place).
+//
+//go:norace
+func (d *Disk) ReplaceRawMtime(p string, data []byte, mtimeNs int64) {
+	d.WriteRaw(p, data)
+	if n := d.lookup(p); n != nil {
+		n.mtime = mtimeNs
+	}
+	d.Journal = append(d.Journal, Op{len(d.Journal), "external-replace-older-mtime", clean(p), len(data), simrt.Elapsed()})
+}
+
 // --- os API ---
 
 type fileInfo struct {
